@@ -158,7 +158,14 @@ def k_seq(run, case):
     try:
         for step, f in enumerate(seq):
             fig = plt.figure()
-            where = "call %d (%s) of %s" % (step + 1, f, seq)
+            decoy = None
+            if rng.random() < .4:
+                # pyplot state: some other figure was created afterwards and is the current one
+                decoy = plt.figure()
+                dax = decoy.add_subplot(111)
+                dax.set_xlabel("decoy x")
+                dax.set_ylabel("decoy y")
+            where = "call %d (%s) of %s%s" % (step + 1, f, seq, " [another figure is current]" if decoy else "")
             start = [None, 0.0, float(T[0]), 50.0][rng.integers(4)]
             if f in ("traj", "traj_colormap", "markers", "edges", "frames"):
                 ax = plot.prepare_axis(fig, mode, length_unit=unit)
@@ -286,6 +293,14 @@ def k_seq(run, case):
                     ok = len(calls) == 1 and same(calls[0][1][0], xa) and same(calls[0][1][1], err)
                 run.check(ok, "error-value plot shows the values against the given x array in order", case,
                           "%s: error plot data differ from (x array, values)" % where, key="error_array:wrong-data")
+            if decoy is not None and f in ("traj", "traj_colormap", "markers", "edges", "frames", "traj_xyz", "traj_rpy"):
+                dax = decoy.axes[0]
+                run.check(dax.get_xlabel() == "decoy x" and dax.get_ylabel() == "decoy y" and not dax.lines
+                          and not dax.collections, "an unrelated current figure is left alone", case,
+                          "%s: evo wrote labels / data into another figure (%r, %r)" %
+                          (where, dax.get_xlabel(), dax.get_ylabel()), key="labels:wrong-figure")
+            if decoy is not None:
+                plt.close(decoy)
             plt.close(fig)
             run.hit("plot calls judged: " + f)
     finally:
@@ -351,4 +366,4 @@ def main(run):
              "per-axis position plot shows that coordinate",
              "roll/pitch/yaw plot shows the pose's own Euler angles in degrees",
              "speed plot shows the speeds", "error-value plot shows the values against the given x array in order",
-             "plotting leaves the trajectory as it was")
+             "plotting leaves the trajectory as it was", "an unrelated current figure is left alone")
